@@ -361,6 +361,7 @@ func (op *ShellOperator) conversionEventHandler(crdName string, request *v1.Conv
 					}).
 					WithLogLabels(logLabels)
 				convTask = newTask
+				verifsched.Point("conversion.taskBuilt", "conversion/"+string(request.UID))
 			})
 
 			if convTask == nil {
